@@ -359,6 +359,8 @@ def jit_worker(cases_path, out_path):
     from nucs.propagators.alldifferent_propagator import compute_domains_alldifferent
     from nucs.propagators.gcc_propagator import compute_domains_gcc
 
+    if type(compute_domains_gcc).__name__ != "CPUDispatcher":
+        raise SystemExit("the jit worker is not running compiled code")
     with open(cases_path) as f, open(out_path, "w") as g:
         for line in f:
             kind, ps, bs = line.rstrip("\n").split(";")
